@@ -126,6 +126,14 @@ def oracle(lines, params):
         return {"err": err_class(e)}
 
 
+def is_float_case(rq):
+    env = rq.get("env") or {}
+    if any(isinstance(v, float) for v in (env.values() if isinstance(env, dict) else [])):
+        return True
+    text = "".join(rq.get("lines") or [])
+    return bool(re.search(r"<[^<>]*(\d\.\d|(?<!/)/(?!/))[^<>]*>", text)) or bool(re.search(r"length[^\n]*(\d\.\d|(?<!/)/(?!/))", text))
+
+
 def run_impl(lines, params):
     from peppercompiler.var_substitute import process_list
     try:
@@ -167,6 +175,8 @@ def gen_expr(rng, names, depth):
     if r < 0.55:
         return "(" + sp(rng) + gen_expr(rng, names, depth - 1) + sp(rng) + ")"
     op = rng.choice(["+", "+", "-", "*", "//", "%"])
+    if rng.random() < 0.04:
+        return gen_expr(rng, names, depth - 1) + sp(rng) + rng.choice(["/ 2", "/ 4", "* 0.5", "+ 0.25", "* 1.5", "/ 3"])
     right = gen_expr(rng, names, depth - 1)
     if op in ("//", "%") and rng.random() < 0.97:
         right = rng.choice(["2", "3", "5", "(%s*%s+1)" % (right, right), "-2", "-3"])
@@ -245,6 +255,11 @@ def gen_case(rng):
     params = {}
     for p in rng.sample(PARAMS, rng.randint(0, 3)):
         params[p] = rng.choice([0, 1, 2, 3, 4, 5, 6, 8, 10, 15, 20, -1, -7]) if rng.random() < 0.3 else rng.randint(1, 12)
+    if rng.random() < 0.12:
+        # float-valued arguments and true division: the value is spliced in as str(value), e.g. 1.5, 2500.75, 4.0 (legal where a
+        # decimal is, e.g. in [<tol>nt] or [k > <rate> /M/s]); the model's integer evaluator answers `unsupported` for these
+        for p in rng.sample(PARAMS, rng.randint(1, 2)):
+            params[p] = rng.choice([1.5, 0.25, 2500.75, 2.0, 0.04, 12.75, -0.5])
     names = list(params)
     lines, kinds = [], []
     for _ in range(rng.randint(1, 12)):
@@ -630,13 +645,17 @@ def run(st, tier, seed):
     res.programs = len(reqs)
     if st.driver_ok:
         send = [{k: v for k, v in r.items() if not k.startswith("_")} for r in reqs]
-        spec_idx = [i for i, r in enumerate(reqs) if r.get("_flat") and (tier != "quick" or i % 3 == 0)]
+        spec_idx = [i for i, r in enumerate(reqs) if r.get("_flat") and (tier != "quick" or i % 3 == 0) and not is_float_case(r)]
         send += [dict(send[i], op="subst-spec") for i in spec_idx]
         got = core.Driver().call_many(send)
         for i, (rq, im, g) in enumerate(zip(reqs, impls, got)):
             res.disagreements_checked += 1
             if g.get("err") == "unsupported":
                 res.count("model:unsupported(not compared)")
+                continue
+            if is_float_case(rq):
+                # floats are outside the model's evaluator (evalInt); the oracle on the real code above still judges these cases
+                res.count("model:float-case(not compared)")
                 continue
             name = "Subst." + {"subst": "processList", "bind": "bindArgs", "instantiate": "instantiate"}[rq["op"]]
             g2 = {k: v for k, v in g.items() if k != "flat"}
